@@ -86,28 +86,16 @@ theorem case_regWait (c : Tid) (h : Inv s) (hth : s.threads[t]? = some th) (hpc 
 
 /-! ## Spawn -/
 
-theorem case_spawn (h : Inv s) (hth : s.threads[t]? = some th) (hpc : th.pc = .run)
-    (hg : s.stopper = none) (s' : State) (hs : step s t .spawn = some s') : Inv s' := by
-  have hns : th.pc.isStopper = false := by simp [hpc, PC.isStopper]
-  simp only [step, hth, hpc] at hs
-  cases hs
-  have hcore : ∀ pr, TPcore pr th → TPcore pr { th with ctx := true, pc := .regWait s.threads.length } := by
-    intro pr hp
-    obtain ⟨h1, h2, h3, h4, h5, h6, h7, h8, h9, h10⟩ := hp
-    core_tac
-  have h1 := inv_mut0 h hth hns hcore
-  generalize hs1 : s.put t { th with ctx := true, pc := .regWait s.threads.length } = s1 at h1
-  have hlen : s1.threads.length = s.threads.length := by rw [← hs1]; simp
-  have hst1 : s1.stopper = none := by rw [← hs1]; exact hg
+/-- Appending a fresh thread (not registered, dispatching, holding the newest table) while no round is
+in progress. -/
+theorem inv_append {s1 : State} (h1 : Inv s1) (hst1 : s1.stopper = none) (e : Option Nat)
+    (he : e = some s1.ver) : Inv { s1 with threads := s1.threads ++ [{ env := e }] } := by
+  subst he
   have hspc1 : s1.spc = .run := spc_none hst1
-  have henv : th.env = some s.ver := by
-    have := ((h.thr t th hth).2 (by simp [hg])).env (by simp [hpc])
-    simpa [proj, spc_none hg, expEnv] using this
-  have hver : s1.ver = s.ver := by rw [← hs1]; rfl
-  -- the state with the child appended
-  have hspc' : ({ s1 with threads := s1.threads ++ [{ env := th.env }] } : State).spc = .run := by
+  have hspc' : ({ s1 with threads := s1.threads ++ [{ env := some s1.ver }] } : State).spc = .run := by
     simp [State.spc, hst1]
-  have hproj : ∀ u, proj ({ s1 with threads := s1.threads ++ [{ env := th.env }] } : State) u = proj s1 u := by
+  have hproj : ∀ u, proj ({ s1 with threads := s1.threads ++ [{ env := some s1.ver }] } : State) u
+      = proj s1 u := by
     intro u; unfold proj; rw [hspc', hspc1]
   refine ⟨?_, ?_, ?_, ?_, ?_⟩
   · intro u thu hu
@@ -118,26 +106,45 @@ theorem case_spawn (h : Inv s) (hth : s.threads[t]? = some th) (hpc : th.pc = .r
       refine ⟨fun hs => ?_, fun hs => ?_⟩
       · simp [hst1] at hs
       · rw [hproj]; exact this.2 (by simp [hst1])
-    · have hul' : s1.threads.length ≤ u := by omega
+    · have hul' : s1.threads.length ≤ u := Nat.le_of_not_lt hul
       rw [List.getElem?_append_right hul'] at hu
       have hu0 : u - s1.threads.length = 0 := by
         rcases Nat.eq_zero_or_pos (u - s1.threads.length) with h0 | h0
         · exact h0
-        · rw [List.getElem?_eq_none (by simpa using h0)] at hu; cases hu
+        · rw [List.getElem?_eq_none (show _ ≤ _ from h0)] at hu; cases hu
       rw [hu0] at hu; simp at hu; subst hu
-      have hu' : u = s1.threads.length := by omega
       refine ⟨fun hs => by simp [hst1] at hs, fun _ => ?_⟩
       rw [hproj]
       have hnl : ¬ (s1.hlock = some u) := by
         intro hh
-        have := h1.hlk u hh; omega
+        have h3 : u < s1.threads.length := h1.hlk u hh
+        exact absurd h3 hul
       refine ⟨rfl, rfl, ?_, ?_, ?_, ?_, ?_, ?_, ?_, ?_⟩ <;>
-        simp [proj, hspc1, isAcc, covered, expEnv, holdsH, beforeUnpark, PC.waiting, hst1, henv, hver, hnl]
+        simp [proj, hspc1, isAcc, covered, expEnv, holdsH, beforeUnpark, PC.waiting, hst1, hnl]
   · intro a ha; simp [hst1] at ha
   · simp only [hspc']; simp [holdsT]
     have := h1.tl; rw [hspc1] at this; simpa [holdsT] using this
-  · intro y hy; simp only at hy; simp only [List.length_append]; have := h1.hlk y hy; omega
+  · intro y hy
+    have h3 : y < s1.threads.length := h1.hlk y hy
+    show y < (s1.threads ++ [({ env := some s1.ver } : Thread)]).length
+    rw [List.length_append]
+    exact Nat.lt_of_lt_of_le h3 (Nat.le_add_right _ _)
   · intro a ha; simp [hst1] at ha
+
+theorem case_spawn (h : Inv s) (hth : s.threads[t]? = some th) (hpc : th.pc = .run)
+    (hg : s.stopper = none) (s' : State) (hs : step s t .spawn = some s') : Inv s' := by
+  have hns : th.pc.isStopper = false := by simp [hpc, PC.isStopper]
+  simp only [step, hth, hpc] at hs
+  cases hs
+  have hcore : ∀ pr, TPcore pr th → TPcore pr { th with ctx := true, pc := .regWait s.threads.length } := by
+    intro pr hp
+    obtain ⟨h1, h2, h3, h4, h5, h6, h7, h8, h9, h10⟩ := hp
+    core_tac
+  have h1 := inv_mut0 h hth hns hcore
+  have henv : th.env = some s.ver := by
+    have := ((h.thr t th hth).2 (by simp [hg])).env (by simp [hpc])
+    simpa [proj, spc_none hg, expEnv] using this
+  exact inv_append h1 (by simpa using hg) th.env (by rw [henv]; rfl)
 
 /-! ## The host's `interrupt()` -/
 
